@@ -141,41 +141,50 @@ class C15(PropBase):
     has_model_driver = False        # two-stage: the model renders from the facts the harness prints (see extra)
     impl_mem_gb = 6
     rule = ("a case is a C14 dump description plus hostile thread / module / unloaded-module names (quotes, backslashes, control "
-            "characters, NUL, non-BMP, lone surrogates decoded lossily, path separators, 300 characters) and breakpad symbol files with "
-            "hostile function / file names for some modules, frames placed inside FUNC / PUBLIC records; every CPU pointer width incl. unknown; "
-            "threads and crashing threads without frames. The harness calls the real print_json(pretty=false/true). Non-trivial = the report has a "
-            "crashing_thread copy or a frame with a function; distinct = distinct case lines")
+            "characters, NUL, non-BMP, lone surrogates decoded lossily, path separators, 300 characters, equal basenames in different directories) and "
+            "breakpad symbol files with hostile function / file names for some modules, frames placed inside FUNC / PUBLIC records; every CPU incl. "
+            "ppc / sparc / mips / unknown, every OS; threads and crashing threads without frames; amd64 instruction bytes / registers / memory info at the "
+            "crash ip; Linux / macOS extra streams; and state overrides (section ST) the harness applies to the ProcessState after process_minidump: assertion, "
+            "cert_info, symbol_stats incl. extra debug info, another requesting thread, trusts prewalked / cfi_scan, last_error_value, mac_crash_info, "
+            "Limit::Error, pid, extra inlines. The harness calls the real print_json(pretty=false/true). Non-trivial = the report has a crashing_thread copy "
+            "or a frame with a function; distinct = distinct case lines")
     trusted_base = [
-        "Coq 8.16.1 kernel (vm_compute only in the non-vacuity Examples); standard library DecimalN (N.to_uint / N.of_uint round trip)",
-        "hand-written model C15/Model.v of print_json, json_registers and Address Display, tied to the code by comparing the model's "
-        "serialisation of the modelled fields with the same fields of the real output (re-rendered by serde_json::to_string)",
-        "serde_json's writer is ASSUMED to emit what [serialise] emits for the whole document; checked on every case for the modelled fields, "
-        "and the model's own parser must accept the real view",
-        "extraction ExtrOcamlBasic; ocaml/c15/main.ml (UTF-8 <-> code points); harness/src/bin/c15.rs + c14.rs (dump synthesis)",
-        "props/c15_schema.py: hand transcription of json-schema.md; Python's json module as the independent JSON parser of the oracle",
-        "translate/c15_enums.py: regexes over FrameTrust::as_str, Os::long_name, Display for Cpu / MemoryAccessType, CrashInconsistency and the value lists of "
-        "json-schema.md (aborts on unrecognised shapes); ASCII lower-casing assumed for to_lowercase()",
+        "Coq 8.16.1 kernel (vm_compute in the finite checks c15_enumerations / c15_source_keys_documented / *_rejects and the non-vacuity Examples); "
+        "standard library DecimalN (N.to_uint / N.of_uint round trip)",
+        "hand-written model C15/Model.v of print_json, json_registers and Address Display: the WHOLE document except soft_errors and "
+        "possible_bit_flips[].confidence; tied to the code by comparing the model's serialisation byte for byte with the real compact output (those two members "
+        "removed, re-rendered by serde_json::to_string) on every case and both build profiles",
+        "serde_json's writer is ASSUMED to emit what [serialise] emits; checked on every case, and the model's own parser must accept the real document",
+        "extraction ExtrOcamlBasic; ocaml/c15/main.ml (UTF-8 <-> code points, facts reader); harness/src/bin/c15.rs + c14.rs (dump synthesis, facts printer: "
+        "string-valued members such as debug ids, versions, crash reasons are read through the same public accessors print_json calls and passed through)",
+        "translate/c15_schema.py: a parser of the ```rust,ignore block of json-schema.md (objects, arrays, alternatives, leaf types, the register map notation; the "
+        "abbreviated crashing_thread listing must be contained in threads[] and is replaced by it) — aborts on anything else; translate/c15_keys.py: regexes over "
+        "print_json's json! keys, map[..] / insert(..) calls and the serde-derived bit-flip structs; translate/c15_enums.py as before",
+        "props/c15_schema.py (hand transcription) and the Python twin of [conforms] over the translated tree must agree on every report; Python's json module is the "
+        "oracle's independent JSON parser",
     ]
     assumptions = [
-        "partial: schema conformance of all fields is judged by the oracle on generated dumps, not proved",
-        "fields outside the modelled view (system_info, lsb_release, mac_crash_info, handles, inlines, memory accesses, bit flips) are only schema-checked",
-        "the state_ok hypotheses of the theorems (module / function base <= instruction, base + size < 2^64) are C08 / C11 / C14 conclusions; "
-        "they are not re-proved here",
+        "partial: serde_json's byte-level writer and pretty printer are assumed (compared, not verified); soft_errors and confidence are outside the model "
+        "(oracle: array of objects / exact binary32 + C19 link)",
+        "wf_state (hypothesis of c15_schema_conformance / c15_address_widths) is an executable predicate; the run evaluates it on every real state and reports a "
+        "state outside it (only Os::Unknown, finding F-C15a, is a recorded exception); its arithmetic clauses are the C08 / C11 / C14 conclusions",
+        "string contents the model passes through (debug_id, code_id, version, crash reason, last_error_value texts, instruction text) are not modelled beyond being strings",
     ]
     manifest = {
-        "text": "partial: serde_json's writer is assumed (modelled by a Gallina serialiser that the run compares with the real bytes field by field); "
-                "schema conformance of all fields is an oracle (hand transcription of json-schema.md), not a theorem. Theorems (Coq, all values / all "
-                "states): parse (serialise v) = Some v for every JSON value over arbitrary code points and integers (escaping total and correct), no raw "
-                "control character in any string; thread_count = |threads|, frame_count = |frames|, frame = position; the crashing_thread copy equals "
-                "threads[threads_index] plus threads_index and registers in frame 0 and exists iff the requesting thread has a frame; module_offset / "
-                "function_offset = offset - base without trap in both build profiles under the stated C08/C11 hypotheses; modules / unloaded_modules mirror "
-                "the lists with end_addr = base + size; Address strings are 0x + lower-case hex of exact length 18 (64-bit, unknown) or 10 (32-bit values below 2^32); "
-                "c15_enumerations (finite check over name tables regenerated from the source and from json-schema.md each run): every trust / access_type / "
-                "crash_inconsistencies / cpu_arch / named os string the report can carry is a documented value. The generator plants amd64 instruction bytes, registers and "
-                "memory info so every optional crash_info member occurs; per-member coverage counts are in the evidence.",
-        "note": "Trusted: Coq kernel + DecimalN; hand-written model (correspondence-checked against print_json compact output; pretty output is compared by the oracle); "
-                "serde_json writer assumed; schema transcription by hand. The runtime behaviour not exhibited by the model: serde_json's byte-level writer and every "
-                "field outside the modelled view.",
+        "text": "partial: serde_json's writer is assumed (modelled by a Gallina serialiser that the run compares with the real compact bytes of the whole document on "
+                "every case); soft_errors and the binary32 confidence are outside the model. Theorems (Coq, all values / all process states, both build profiles): "
+                "c15_serialise_parse — parse (serialise v) = Some v for every JSON value over arbitrary code points and integers (escaping total and correct; no raw "
+                "control character); c15_schema_conformance — for every well-formed state the report is produced without trap and conforms to DOC_SCHEMA, the schema "
+                "tree translate/c15_schema.py regenerates from json-schema.md on every run: every member name at every level documented and unique, every value of the "
+                "documented type or null, every enumeration string documented, every hex string 0x + 1..16 lower-case digits; c15_address_widths — every Address-valued "
+                "member of the whole report is padded to the state's pointer width (16 digits for 64-bit / unknown, >= 8 for 32-bit, exactly 8 below 2^32: c15_hex_width); "
+                "c15_counts / c15_frame_numbers / c15_offsets / c15_modules_mirror (incl. filename = basename, cert_subject and missing_symbols looked up by that name) / "
+                "c15_crashing_thread_copy; finite checks over tables regenerated from the source each run: c15_enumerations, c15_source_keys_documented (every member name "
+                "in print_json's source is documented). The Gallina checkers [conforms DOC_SCHEMA] and [widths] and the hypothesis [wf_state] are also evaluated on every real "
+                "output / state of the run. Generated states cover every optional member (coverage counts in the evidence).",
+        "note": "Trusted: Coq kernel + DecimalN; hand-written model (correspondence-checked byte for byte against print_json's compact output; pretty output is compared as a "
+                "value by the oracle); serde_json writer assumed; schema translator + hand transcription cross-checked. Not exhibited by the model: serde_json's byte-level "
+                "writer, soft_errors, confidence, the text of pass-through strings.",
     }
 
     def setup(self):
@@ -646,6 +655,33 @@ class C15(PropBase):
         mc = doc.get("mac_crash_info")
         if mc is not None and mc.get("num_records") != len(mc.get("records") or []):
             return "mac_crash_info.num_records = %r but %d records" % (mc.get("num_records"), len(mc.get("records") or []))
+        macs = [a for d, a in st if d == "mac"]
+        if macs:
+            a = macs[-1]
+            recs = (mc or {}).get("records") or []
+            if len(recs) != len(a) // 8:
+                return "mac_crash_info has %d records, the state %d" % (len(recs), len(a) // 8)
+            for i, r in enumerate(recs):
+                f = a[8 * i:8 * i + 8]
+                for j, key in enumerate(("thread", "dialog_mode", "abort_cause")):
+                    want = int(f[j]) or None
+                    got = r.get(key)
+                    if (got is None) != (want is None) or (got is not None and int(got, 16) != want):
+                        return "mac_crash_info.records[%d].%s = %r, the record holds %r" % (i, key, got, want)
+                for j, key in enumerate(("module", "message", "signature_string", "backtrace", "message2")):
+                    want = dec(f[3 + j]) or None
+                    if r.get(key) != want:
+                        return "mac_crash_info.records[%d].%s = %r, the record holds %r" % (i, key, r.get(key), want)
+        xt = ext.split()
+        if "HANDLES" in xt:
+            hi = xt.index("HANDLES")
+            nh = int(xt[hi + 1])
+            # a name that is not valid UTF-16 (the marker pair becomes a lone surrogate) is dropped by the reader (C01/C02 territory)
+            nm = lambda h: "" if "\ue123\ue124" in dec(h) else dec(h)
+            wanth = [(int(xt[hi + 2 + 3 * i]), nm(xt[hi + 3 + 3 * i]), nm(xt[hi + 4 + 3 * i])) for i in range(nh)]
+            goth = [(h.get("handle"), h.get("type_name") or "", h.get("object_name") or "") for h in doc.get("handles") or []]
+            if goth != wanth:
+                return "handles does not mirror the handle data stream: %r vs %r" % (goth[:3], wanth[:3])
         pl = doc.get("proc_limits")
         if pl is not None:
             names = [x.get("name") for x in pl.get("limits") or []]
